@@ -152,3 +152,15 @@ Proof.
     split; [apply age_values_after_status|split; [right; apply status_values|split; [apply legacy_values|split; reflexivity]]].
 Qed.
 Print Assumptions C11_history.
+
+(* ---------- tie to the source: the part of the model this property rests on is what /verif/translate derives from
+   /repo's Go source on this run (Generated/*.v are rewritten before every build; see DESIGN.md section 9) ---------- *)
+From HC.Generated Require Import SrcTables.
+From HC.Proofs Require Import TieTables.
+Theorem C11_source_status_fields :
+  src_status_header = status_header /\ src_from_cache_header = from_cache_header /\
+  src_CacheStatusHit = (status_value HIT, bs "1") /\ src_CacheStatusStale = (status_value STALE, bs "1") /\
+  src_CacheStatusRevalidated = (status_value REVALIDATED, bs "1") /\
+  src_CacheStatusMiss = (status_value MISS, []) /\ src_CacheStatusBypass = (status_value BYPASS, []).
+Proof. repeat split; reflexivity. Qed.
+Print Assumptions C11_source_status_fields.
